@@ -19,6 +19,10 @@ import NeoFS.Driver.Put
 import NeoFS.Driver.Validate
 import NeoFS.Driver.WCFlush
 import NeoFS.Driver.WCSched
+import NeoFS.Driver.ShardSteps
+import NeoFS.Driver.Assemble
+import NeoFS.Driver.IRContainer
+import NeoFS.Driver.IRNetmap
 open NeoFS NeoFS.Driver
 
 /-- State of all stateful models; pure models need none. -/
@@ -31,6 +35,8 @@ structure DState where
   pol : NeoFS.Policer.Cluster := {}
   acl : NeoFS.Driver.ACLSt := {}
   wcr : NeoFS.WCFlush.St := {}
+  shardst : NeoFS.ShardSteps.St := {}
+  irn : NeoFS.IRNetmap.St := ⟨0, false, 0⟩
 
 def stepLine (s : DState) (line : String) : DState × String :=
   let o := parseOp line
@@ -44,6 +50,10 @@ def stepLine (s : DState) (line : String) : DState × String :=
   | "gov" => (s, govStep o)
   | "dump" => (s, dumpStep o)
   | "wc" => let (w, out) := wcStep s.wc o; ({ s with wc := w }, out)
+  | "shardst" => let (w, out) := shardstStep s.shardst o; ({ s with shardst := w }, out)
+  | "assemble" => (s, assembleStep o)
+  | "irc" => (s, ircStep o)
+  | "irn" => let (n, out) := irnStep s.irn o; ({ s with irn := n }, out)
   | "put" => (s, putStep o)
   | "validate" => (s, validateStep o)
   | "wcread" => let (w, out) := wcreadStep s.wcr o; ({ s with wcr := w }, out)
